@@ -155,20 +155,29 @@ def raw_tables(fn, root):
 
 
 def observe(c, names_now):
-    """everything read through the Cooler object c"""
-    b = c.bins()[:]
-    obs = {"chromnames": [str(x) for x in c.chromnames],
-           "chromsizes": [[str(k), int(v)] for k, v in c.chromsizes.items()],
-           "labels": [str(x) for x in b["chrom"]],
-           "starts": [int(x) for x in b["start"]], "ends": [int(x) for x in b["end"]],
+    """everything read through the Cooler object c; a read that raises is recorded as its exception class"""
+    def rd(fn):
+        o, v = G.guarded(fn)
+        return v if o == "Ok" else o
+
+    def table():
+        b = c.bins()[:]
+        return {"labels": [str(x) for x in b["chrom"]], "starts": [int(x) for x in b["start"]], "ends": [int(x) for x in b["end"]]}
+    t = rd(table)
+    if not isinstance(t, dict):
+        t = {"labels": t, "starts": t, "ends": t}
+    obs = {"chromnames": rd(lambda: [str(x) for x in c.chromnames]),
+           "chromsizes": rd(lambda: [[str(k), int(v)] for k, v in c.chromsizes.items()]),
+           "labels": t["labels"], "starts": t["starts"], "ends": t["ends"],
            "extent": {}, "matrix": {}, "binsfetch": {}}
     for nm in names_now:
-        o, v = G.guarded(c.extent, nm)
-        obs["extent"][nm] = [int(v[0]), int(v[1])] if o == "Ok" else o
-        o, v = G.guarded(lambda: c.matrix(balance=False).fetch(nm))
-        obs["matrix"][nm] = [[int(x) for x in row] for row in v] if o == "Ok" else o
-        o, v = G.guarded(lambda: c.bins().fetch(nm))
-        obs["binsfetch"][nm] = [[str(a), int(s), int(e)] for a, s, e in zip(v["chrom"], v["start"], v["end"])] if o == "Ok" else o
+        obs["extent"][nm] = rd(lambda: [int(x) for x in c.extent(nm)])
+        obs["matrix"][nm] = rd(lambda: [[int(x) for x in row] for row in c.matrix(balance=False).fetch(nm)])
+
+        def bf():
+            v = c.bins().fetch(nm)
+            return [[str(a), int(s), int(e)] for a, s, e in zip(v["chrom"], v["start"], v["end"])]
+        obs["binsfetch"][nm] = rd(bf)
     return obs
 
 
@@ -188,9 +197,17 @@ def run_impl(d, k, c, maps):
     for m in maps:
         names_now = apply_map(names_now, m)
     same = observe(clr, names_now) if outcome == "Ok" else None
-    reopened = observe(cooler.Cooler(uri), names_now) if outcome == "Ok" else None
+    reopened = None
+    if outcome == "Ok":
+        o2, c2 = G.guarded(cooler.Cooler, uri)
+        if o2 == "Ok":
+            reopened = observe(c2, names_now)
+        else:
+            outcome = "reopen:" + o2
     after_tables, after_attrs = raw_tables(fn, c["root"])
-    dump = G.canon_dump(G.raw_dump_file(fn, 5))
+    o3, dump = G.guarded(lambda: G.canon_dump(G.raw_dump_file(fn, 5)))
+    if o3 != "Ok":
+        dump = "unreadable:" + o3
     return {"outcome": outcome, "pre": pre, "same": same, "reopened": reopened, "before": (before_tables, before_attrs),
             "after": (after_tables, after_attrs), "dump": dump, "names_now": names_now}
 
@@ -221,7 +238,7 @@ def oracle(c, maps, r):
             bad.append({"what": f"chromsizes ({tag} object)", "got": o["chromsizes"]})
         new_of = dict(zip(c["names"], exp_names))
         if o["labels"] != [new_of[x] for x in lab_old]:
-            bad.append({"what": f"bin labels ({tag} object)", "got": o["labels"][:12]})
+            bad.append({"what": f"bin labels ({tag} object)", "got": o["labels"][:12] if isinstance(o["labels"], list) else o["labels"]})
         if o["starts"] != [b[1] for b in c["bins"]] or o["ends"] != [b[2] for b in c["bins"]]:
             bad.append({"what": f"bin coordinates changed ({tag} object)"})
         for nm in exp_names:
